@@ -49,6 +49,13 @@ def _real_pool(rep, tier, rng):
                 # whitespace-only variants of a behaviour that is in the same run (a result must depend on the exact text only)
                 beh[f"near_{i}"] = [near_miss(B[n][0], rng)] + list(B[n][1:])
                 beh[f"near2_{i}"] = [B[n][0], near_miss(B[n][0], rng)]
+            if i % 4 == 0:
+                # repeated part texts (A-A, A-B-A) and both orders of two distinct parts: one tree PER PART, in the order given
+                other = B[pick[(i + 1) % len(pick)]][0]
+                beh[f"dup_{i}"] = [B[n][0], B[n][0]]
+                beh[f"aba_{i}"] = [B[n][0], other, B[n][0]]
+                beh[f"ab_{i}"] = [B[n][0], other]
+                beh[f"ba_{i}"] = [other, B[n][0]]
         # two-part entries whose parts BOTH fail, with every ordered pair of failure kinds (the reported error is the first part's)
         for a_, ba in enumerate(BROKEN):
             for b_, bb in enumerate(BROKEN):
